@@ -447,7 +447,7 @@ func c16Order(tier string, seed int64, idx int, scratch string) rt.CaseResult {
 	var c rt.CaseResult
 	rt.SetWatchdogLimit(30 * time.Second)
 	rng := seqrun.Rng(seed, "C16o", idx)
-	patterns := []string{"send-before-run", "stop-stop-concurrent", "run-stop-run", "stop-before-run", "send-during-stop", "run-run-concurrent", "random", "stop-racing-runs", "restart-with-deferred", "first-deferral-racing-stop", "send-from-job-during-stop", "send-while-stop-waits", "race-for-last-slot", "run-context-cancelled-before-stop", "sched-vs-stop"}
+	patterns := []string{"send-before-run", "stop-stop-concurrent", "run-stop-run", "stop-before-run", "send-during-stop", "run-run-concurrent", "random", "stop-racing-runs", "restart-with-deferred", "first-deferral-racing-stop", "send-from-job-during-stop", "send-while-stop-waits", "race-for-last-slot", "run-context-cancelled-before-stop", "sched-vs-stop", "restart-then-send"}
 	pat := patterns[idx%len(patterns)]
 	e := &c16Env{pool: verif.NewPool(verif.PoolOptions{NumWorkers: 1 + rng.Intn(2), SendDuration: time.Microsecond}), t0: time.Now()}
 	fmt.Fprintf(stderrW, "C16 pattern %s\n", pat)
@@ -758,6 +758,50 @@ func c16Order(tier string, seed int64, idx int, scratch string) rt.CaseResult {
 			if len(c.Violations) > 0 {
 				return c
 			}
+		}
+	case "restart-then-send":
+		// Run, Stop, Run again (with a live and with an already used parent context), a short
+		// pause, then Sends: the second life is a running pool like the first, every job handed
+		// to it runs - without any further Stop or Send to help it along
+		for round := 0; round < 40; round++ {
+			rt.Beat()
+			ctx, cancel := context.WithCancel(bg)
+			e.pool.Run(ctx)
+			send()
+			e.pool.Stop()
+			if round%2 == 0 {
+				cancel()
+			}
+			e.pool.Run(bg)
+			time.Sleep(time.Duration(round%5) * 300 * time.Microsecond)
+			first := len(e.jobs)
+			for i := 0; i < 3+round%4; i++ {
+				j := e.newJob(false)
+				j.callerCtx = bg
+				e.send(j)
+			}
+			deadline := time.Now().Add(10 * time.Second)
+			for {
+				done := true
+				e.mu.Lock()
+				for _, j := range e.jobs[first:] {
+					if j.runs.Load() == 0 {
+						done = false
+					}
+				}
+				e.mu.Unlock()
+				if done || time.Now().After(deadline) {
+					if !done {
+						c.Violate("job-lost after-restart running-pool", fmt.Sprintf("round %d: Run, Stop, Run, then %d Sends: after ten seconds not all of them have run (the pool was started again and never stopped)", round, len(e.jobs)-first), map[string]any{"pattern": pat, "seed": seed, "case": idx, "round": round})
+						cancel()
+						return c
+					}
+					break
+				}
+				time.Sleep(200 * time.Microsecond)
+			}
+			cancel()
+			e.pool.Stop()
 		}
 	case "sched-vs-stop":
 		// scheduled events with periods of microseconds (the periodic collector of a database is
